@@ -80,7 +80,8 @@ MANIFEST = {
             'seven old element forms are converted new->old->new and '
             'old->new->old and through Slot(); node, core/GPU indices, lfs, '
             'mem are compared after every step.'
-            "  The same function payload is decoded twice with the first decode's argument objects changed in between (what a call leaves behind): the second decode gives the original arguments and result.",
+            "  The same function payload is decoded twice with the first decode's argument objects changed in between (what a call leaves behind): the second decode gives the original arguments and result."
+            '  Function tasks are built on 2-4 threads at the same time: every payload decodes to the call its own thread made.',
     'note': 'sampled, not enumerated; alias table taken from _verify and the '
             '_schema comments; when a deprecated attribute and its replacement '
             'are both set to different values either value is accepted; '
